@@ -22,6 +22,11 @@ K     == [W |-> 8, framed |-> IOEnv.AUTH_FRAMED = "true"]
 
 St(nd) == [n |-> nd.n]
 
+\* every edge is judged ONCE (several 10^5 edges: no set of all edges is ever built)
+J == [i \in DOMAIN Nodes |->
+        [j \in DOMAIN Nodes[i].e |->
+           LET e == Nodes[i].e[j] IN Judge(St(Nodes[i]), Cases[e[2]], e[3] = 1, K)]]
+
 VARIABLES node, g, last
 
 Init == /\ node = 0
@@ -29,10 +34,9 @@ Init == /\ node = 0
         /\ last = [from |-> -1, ci |-> 0, ok |-> TRUE]
 
 Next == \E j \in DOMAIN Nodes[node + 1].e :
-          LET nd == Nodes[node + 1]
-              e  == nd.e[j] IN
+          LET e == Nodes[node + 1].e[j] IN
           /\ node' = e[1]
-          /\ g' = Ghost(g, St(nd), Cases[e[2]], Resp(e[3] = 1), K)
+          /\ g' = GhostJ(g, e[3] = 1, J[node + 1][j])
           /\ last' = [from |-> node, ci |-> e[2], ok |-> e[3] = 1]
 
 Spec == Init /\ [][Next]_<<node, g, last>>
@@ -43,48 +47,48 @@ C17b == Inv_C17b(g)
 C17c == Inv_C17c(g)
 
 ---------------------------------------------------------------------------
-BadAt(i, Bad(_, _)) == {<<i, j>> : j \in {k \in DOMAIN Nodes[i].e : Bad(Nodes[i], Nodes[i].e[k])}}
-EdgesWhere(Bad(_, _)) == UNION {BadAt(i, Bad) : i \in DOMAIN Nodes}
+BadAt(i, Bad(_, _, _)) == {<<i, j>> : j \in {k \in DOMAIN Nodes[i].e : Bad(Nodes[i], Nodes[i].e[k], J[i][k])}}
+EdgesWhere(Bad(_, _, _)) == UNION {BadAt(i, Bad) : i \in DOMAIN Nodes}
+CountAt(i, P(_, _, _)) == Cardinality({k \in DOMAIN Nodes[i].e : P(Nodes[i], Nodes[i].e[k], J[i][k])})
+CountWhere(P(_, _, _)) == FoldLeft(LAMBDA acc, i : acc + CountAt(i, P), 0, [i \in DOMAIN Nodes |-> i])
+
+IsCheck(e) == Cases[e[2]].op # "NewNonce"
 
 \* 1. conformance of every implementation edge with the specification
-Conforms(nd, e) ==
-  LET o == Step(St(nd), Cases[e[2]], K) IN
+Conforms(nd, e, j) ==
   /\ Applicable(St(nd), Cases[e[2]])
-  /\ o.resp.ok = (e[3] = 1)
+  /\ j.exp = (e[3] = 1)
   /\ e[4] = 1
-  /\ o.s.n = Nodes[e[1] + 1].n
-Divergent == EdgesWhere(LAMBDA nd, e : ~Conforms(nd, e))
+  /\ NextS(St(nd), Cases[e[2]]).n = Nodes[e[1] + 1].n
+Divergent == EdgesWhere(LAMBDA nd, e, j : ~Conforms(nd, e, j))
 
 \* 2. the monitors on every accepted edge
-Violating == EdgesWhere(LAMBDA nd, e : /\ e[3] = 1
-                                       /\ Cases[e[2]].op # "NewNonce"
-                                       /\ Verdict(St(nd), Cases[e[2]], K).mon # "ok")
-KeyAt(p) == LET nd == Nodes[p[1]] IN KeyOf(St(nd), Cases[nd.e[p[2]][2]], K)
+Violating == EdgesWhere(LAMBDA nd, e, j : e[3] = 1 /\ j.mon # "ok")
+KeyAt(p) == J[p[1]][p[2]].key
 Keys == {KeyAt(p) : p \in Violating}
 
 Describe(p) == LET nd == Nodes[p[1]] e == nd.e[p[2]] r == Cases[e[2]] IN
   [node |-> nd.id, n |-> nd.n, ci |-> e[2], req |-> r, ok |-> e[3] = 1, aux |-> e[4],
-   expected_ok |-> Step(St(nd), r, K).resp.ok,
+   expected_ok |-> J[p[1]][p[2]].exp,
    verdict |-> IF r.op = "NewNonce" THEN [mon |-> "ok", rel |-> "legit"] ELSE Verdict(St(nd), r, K)]
 
 First(S, k) == LET q == SetToSeq(S) IN SubSeq(q, 1, IF Len(q) < k THEN Len(q) ELSE k)
+\* a few members of a possibly very large class of edges, without building the class
+Some(P(_, _, _), k) ==
+  LET hit == {i \in DOMAIN Nodes : CountAt(i, P) > 0} IN
+  IF hit = {} THEN <<>> ELSE LET i == CHOOSE x \in hit : TRUE IN First({Describe(p) : p \in BadAt(i, P)}, k)
 
-NEdges    == FoldLeft(LAMBDA acc, nd : acc + Len(nd.e), 0, Nodes)
-Accepted  == EdgesWhere(LAMBDA nd, e : e[3] = 1 /\ Cases[e[2]].op # "NewNonce")
-\* accepted although something differs from what was tagged = Violating; refused modifications:
-RefusedMods == EdgesWhere(LAMBDA nd, e : e[3] = 0 /\ Verdict(St(nd), Cases[e[2]], K).mon # "ok")
-ImplStricter == EdgesWhere(LAMBDA nd, e : e[3] = 0 /\ Cases[e[2]].op # "NewNonce"
-                                          /\ Verdict(St(nd), Cases[e[2]], K).mon = "ok")
+NEdges == FoldLeft(LAMBDA acc, nd : acc + Len(nd.e), 0, Nodes)
 
 Report ==
   [ nodes        |-> Len(Nodes),
     cases        |-> Len(Cases),
     edges        |-> NEdges,
-    accepted     |-> Cardinality(Accepted),
-    refused_modifications |-> Cardinality(RefusedMods),
-    sample_refused |-> First({Describe(p) : p \in RefusedMods}, 2),
-    sample_legit |-> First({Describe(p) : p \in Accepted \ Violating}, 1),
-    impl_stricter |-> First({Describe(p) : p \in ImplStricter}, 20),
+    accepted     |-> CountWhere(LAMBDA nd, e, j : e[3] = 1 /\ IsCheck(e)),
+    refused_modifications |-> CountWhere(LAMBDA nd, e, j : e[3] = 0 /\ j.mon # "ok"),
+    sample_refused |-> Some(LAMBDA nd, e, j : e[3] = 0 /\ j.mon # "ok", 2),
+    sample_legit |-> Some(LAMBDA nd, e, j : e[3] = 1 /\ IsCheck(e) /\ j.mon = "ok" /\ nd.n > 0, 1),
+    impl_stricter |-> First({Describe(p) : p \in EdgesWhere(LAMBDA nd, e, j : e[3] = 0 /\ IsCheck(e) /\ j.mon = "ok")}, 20),
     divergence_count |-> Cardinality(Divergent),
     divergences  |-> First({Describe(p) : p \in Divergent}, 20),
     violation_count |-> Cardinality(Violating),
